@@ -38,6 +38,7 @@ CONSTANTS
   PolyDeg,    \* degree of polynomial inputs
   DiffK,      \* set of differentiation orders
   MaxDeg,     \* max number of base-circuit factors in a product (bounds magnitudes: 32-bit integers)
+  EvExp,      \* evidence values are obs / 2^EvExp (1: half-integer points for polynomial inputs)
   Invalid,    \* TRUE: ApplyOp also generates calls that must be refused
   MaxHist,    \* length of run-phase histories (0 = no run phase)
   RunActs,    \* subset of {"update","reset","save","load","reload","eval"}
@@ -47,7 +48,9 @@ CONSTANTS
   EmitOps,    \* emit a behaviour only at states whose number of applied operators is in this set
   EmitMod,    \* ... and whose structural hash is EmitRes modulo EmitMod (1 = emit all)
   EmitRes,
-  EmitSmall   \* ... or whose number of layers is at most EmitSmall (small circuits are all emitted)
+  EmitSmall,  \* ... or whose number of layers is at most EmitSmall (small circuits are all emitted)
+  EmitFilter  \* "all", or "nonsd": only states with a smooth, decomposable, NOT structured-
+              \* decomposable base circuit (rare among all circuits: emitted without sampling)
 
 VARIABLES layers, bases, ops, phase, ver, saved, hist
 vars == <<layers, bases, ops, phase, ver, saved, hist>>
@@ -264,7 +267,7 @@ Candidates ==
      ELSE {})
     \cup
     (IF "evidence" \in OpSet
-     THEN UNION {{[op |-> "evidence", a |-> a, obs |-> obs] :
+     THEN UNION {{[op |-> "evidence", a |-> a, obs |-> obs, ed |-> EvExp] :
                     obs \in {f \in [Z -> 0..2] : \A v \in Z : f[v] < Dom[v]}}
                  : Z \in (IF Invalid THEN SUBSET (1..V) ELSE Subsets1(TermScope(Pool, a)))}
      ELSE {})
@@ -410,7 +413,7 @@ StructOf(i) ==
 
 OpJson(t) ==
   CASE t.op = "integrate" -> [op |-> t.op, a |-> t.a, Z |-> SetToSeq(t.Z)]
-    [] t.op = "evidence" -> [op |-> t.op, a |-> t.a, vars |-> SetToSeq(DOMAIN t.obs),
+    [] t.op = "evidence" -> [op |-> t.op, a |-> t.a, ed |-> t.ed, vars |-> SetToSeq(DOMAIN t.obs),
                              vals |-> [n \in 1..Cardinality(DOMAIN t.obs) |-> t.obs[SetToSeq(DOMAIN t.obs)[n]]]]
     [] OTHER -> t
 
@@ -506,7 +509,10 @@ StructBehaviour ==
    compat |-> IF NB = 2 THEN <<CompatOn(layers, BaseReach(1), BaseReach(2))>> ELSE <<>>]
 
 MixHash == (((StructHash * 7919 + 4273) % 100003) * 31 + StructHash) % 100003
-HashOK == NL <= EmitSmall \/ (MixHash % EmitMod) = (EmitRes % EmitMod)
+NonSDBase == \E b \in 1..NB : LET r == BaseReach(b) IN
+                SmoothOn(layers, r) /\ DecompOn(layers, r) /\ ~SDOn(layers, r)
+HashOK == IF EmitFilter = "nonsd" THEN NonSDBase
+          ELSE NL <= EmitSmall \/ (MixHash % EmitMod) = (EmitRes % EmitMod)
 Emitting ==
   /\ Len(ops) \in EmitOps
   /\ HashOK
